@@ -6,7 +6,7 @@ use crate::mqtt_client::outbound::{CONTROL_PACKET_LEN, write_all};
 use crate::packets::{Disconnect, PublishHeader, Subscribe, Unsubscribe};
 use crate::properties::{Properties, PropertyContext};
 use crate::publication::{Publication, ToPayload};
-use crate::ser::MqttSerializer;
+use crate::ser::{Error as SerError, MqttSerializer};
 use crate::types::TopicFilter;
 use crate::wire::Utf8String;
 use crate::{Connection, Error, Io, Op, Property, PubError, QoS, ResourceError, debug, info, warn};
@@ -29,7 +29,17 @@ impl<'buf, IO: Io> Connection<'_, 'buf, IO> {
             return Err(Error::InvalidRequest);
         }
         let mut buffer = [0u8; CONTROL_PACKET_LEN];
-        let packet = MqttSerializer::encode(&mut buffer, &disconnect)?;
+        // The dedicated control storage holds a plain or reason-only DISCONNECT even when the TX
+        // arena is full. A DISCONNECT carrying properties does not fit there and is encoded in the
+        // free part of the arena instead.
+        let packet = match MqttSerializer::encode(&mut buffer, &disconnect) {
+            Ok(packet) => packet,
+            Err(SerError::InsufficientMemory) => MqttSerializer::encode(
+                self.session.data.outbound.scratch_space(),
+                &disconnect,
+            )?,
+            Err(err) => return Err(err.into()),
+        };
         self.session.runtime.require_packet_size(packet.len())?;
         let result = match write_all(&mut self.io, packet).await {
             Ok(()) => self.io.flush().await.map_err(Error::Transport),
